@@ -40,9 +40,9 @@ def plan(tier, seed):
                     if 0 <= n <= VARIANTS[v] * PAGE:
                         for s in (0, 1, 2):
                             specs.append({'k': 'b', 'v': v, 'len': n, 's': s})
-    nrand = 14000 if tier == 'quick' else 1200000
+    nrand = 40000 if tier == 'quick' else 5000000
     specs.extend({'k': 'r'} for _ in range(nrand))
-    nfault = 3000 if tier == 'quick' else 200000
+    nfault = 8000 if tier == 'quick' else 800000
     specs.extend({'k': 'f'} for _ in range(nfault))
     return specs
 
